@@ -73,13 +73,16 @@ def operator_op(case, rng):
     if r < 0.37:
         n = rng.choice([x for x in nodes if x.io_class != "LustreHSM"] or nodes)
         p = os.path.join(n.root, "ALPENHORN_NODE")
-        st = rng.choice(["ok", "missing", "other"])
+        st = rng.choice(["ok", "missing", "other", "other"])
         if st == "missing":
             if os.path.exists(p):
                 os.remove(p)
         else:
+            # "other": the marker of another node - an unrelated name, or one that merely contains / extends this node's name
+            # (disk10 mounted in the slot of disk1)
+            other = rng.choice(["someone-else", n.name + "0", "x" + n.name, n.name + " ", n.name.upper()])
             with open(p, "w") as f:
-                f.write((n.name if st == "ok" else "someone-else") + "\n")
+                f.write((n.name if st == "ok" else other) + "\n")
         case.marker_state[n.id] = st
         return f"marker of {n.name} -> {st}"
     if r < 0.43:
